@@ -184,9 +184,9 @@ ItemsRel(K, its, ys) == Len(its) = Len(ys) /\ \A j \in 1..Len(its) : ItemRel(K, 
 (* y is the template node t with its slots filled from match m                *)
 FillRel(K, t, y, m) ==
   /\ SameShape(t, y)
-  /\ \A i \in 1..Len(NFields(t)) :
-       \/ ItemsRel(K, TmplFieldItems(K, m, t, NFields(t)[i].n, TRUE), NFields(y)[i].c)
-       \/ NKind(t) = "BoolOp" /\ ItemsRel(K, TmplFieldItems(K, m, t, NFields(t)[i].n, FALSE), NFields(y)[i].c)
+  /\ \E flat \in (IF NKind(t) = "BoolOp" THEN {TRUE, FALSE} ELSE {TRUE}) :
+       \A i \in 1..Len(NFields(t)) :
+         ItemsRel(K, TmplFieldItems(K, m, t, NFields(t)[i].n, flat), NFields(y)[i].c)
 
 PreItems(K, x, p, f) ==
   Flatten([j \in 1..Len(f.c) |->
